@@ -213,6 +213,9 @@ func scenarios(tier string) []scen {
 		{Name: "discard-status 301,404,429: page+redirect asset+404", Seeds: []string{H + "/page"}, Nodes: []world.Node{page(H+"/page", H+"/ra", H+"/missing.png"),
 			{URL: H + "/ra", Kind: "redirect", Location: H + "/ra.png"}, {URL: H + "/ra.png", Kind: "bin"}, {URL: H + "/missing.png", Kind: "status", Code: 404}}},
 		{Name: "discard-status 200: page (nothing of it is written)", Seeds: []string{H + "/page"}, Nodes: []world.Node{page(H+"/page", H+"/gone.png"), {URL: H + "/gone.png", Kind: "status", Code: 410}}},
+		// a redirection that is the seed's last record: its target is excluded, nothing else is fetched afterwards
+		{Name: "seed redirects to an excluded host (terminal redirection)", Seeds: []string{H + "/moved"}, Nodes: []world.Node{{URL: H + "/moved", Kind: "redirect", Location: "http://excluded.example/x"}}},
+		world.MkSite("page+asset redirecting to an excluded host", "page", []string{"redirEx", "bin"}),
 		{Name: "seed answers 429 for good", Seeds: []string{H + "/limited"}, Nodes: []world.Node{{URL: H + "/limited", Kind: "status", Code: 429}}},
 		{Name: "two seeds", Seeds: []string{H + "/p1", H + "/p2"}, Nodes: []world.Node{page(H+"/p1", H+"/a.png"), page(H+"/p2", H+"/b.png"), {URL: H + "/a.png", Kind: "bin"}, {URL: H + "/b.png", Kind: "bin"}}},
 	}
@@ -225,7 +228,7 @@ func scenarios(tier string) []scen {
 				}
 				p = P - 1
 			}
-			opt := world.Options{Workers: ca[0], MaxConcurrentAssets: ca[1], MaxRetry: 1, MaxRedirect: 2}
+			opt := world.Options{Workers: ca[0], MaxConcurrentAssets: ca[1], MaxRetry: 1, MaxRedirect: 2, ExcludeHosts: []string{"excluded.example"}}
 			if strings.HasPrefix(d.Name, "discard-status 301") {
 				opt.DiscardStatus = []int{301, 404, 429}
 			} else if strings.HasPrefix(d.Name, "discard-status 200") {
